@@ -197,6 +197,7 @@ func init() {
 	c12Ops = append(c12Ops, c12Op{name: "GetPageSettings()", kind: "get"})
 	c12Ops = append(c12Ops, c12Op{name: "reopen", kind: "reopen"})
 	c12Ops = append(c12Ops, c12Op{name: "AddParagraph", kind: "para"})
+	c12Ops = append(c12Ops, c12Op{name: "work on another document (build, save, reopen, render as template)", kind: "other"})
 	names := make([]string, len(c12Ops))
 	for i, o := range c12Ops {
 		names[i] = o.name
@@ -355,6 +356,12 @@ func (i *c12Inst) Apply(op int) (string, []rep.Violation) {
 		return "read", i.check(o.name)
 	case "para":
 		i.doc.AddParagraph("x")
+		return "ok", i.check(o.name)
+	case "other":
+		// another document gets other page settings, margins and distances: this one reads as before
+		if p := interfere(); p != "" {
+			return "panic", []rep.Violation{{Sig: "panic|other-document|" + panicClass(p), Clause: "panic", What: p}}
+		}
 		return "ok", i.check(o.name)
 	case "reopen":
 		_, b, errS := saveRead(i.doc)
